@@ -3,7 +3,7 @@ CONSTANTS U <- U_tree
  Datas <- Datas_1
  MaxLen = 2
  Depth = 0
- OpsOn = {"put", "get", "copy", "rename", "unlink", "dcreate", "dunlink", "symlink", "fexists", "dexists"}
+ OpsOn = {"put", "get", "copy", "rename", "unlink", "dcreate", "dcreated", "dunlink", "symlink", "fexists", "dexists"}
 INVARIANT TypeOK
 PROPERTIES FailUnchanged CreateIff UnlinkExact ReadBack
 CONSTRAINT Bound
